@@ -75,6 +75,18 @@ Fixpoint tcompat (t1 t2 : list pseg) : bool :=
   | _, _ => false
   end.
 
+(* vocabulary for the per-kind conflict lemmas *)
+Definition no_wild (t : list pseg) : bool :=
+  forallb (fun p => match p with PWild _ => false | _ => true end) t.
+Definition kind_clash (p1 p2 : pseg) : bool :=
+  match p1, p2 with
+  | PLit _, PLit _ => false
+  | PVar x, PVar y => negb (str_eqb x y)
+  | PWild x, PWild y => negb (str_eqb x y)
+  | _, _ => true
+  end.
+Definition count_var (x : str) (t : list pseg) : nat := length (filter (str_eqb x) (vars_of t)).
+
 Section Spec.
   Variable V : Type.
   Variable cmp : V -> V -> comparison.
